@@ -131,9 +131,11 @@ AllViews ==
           (v[1] + 4 * v[2] + 8 * v[3] + 16 * v[4] + 48 * v[5] + 144 * v[6]) % Stripe = Phase % Stripe}
 Init == view = <<"start">>
 Next == \/ /\ Len(view) = 1
-           /\ view' \in {<<"grp", g, h>> : g \in 1..4, h \in 1..3}
-        \/ /\ Len(view) = 3
-           /\ view' \in {v \in AllViews : (v[1] % 4) + 1 = view[2] /\ v[IF Mode = "views" THEN 5 ELSE 4] = view[3]}
+           /\ view' \in {<<"grp", g, h, j>> : g \in 1..4, h \in 1..3, j \in 1..3}
+        \/ /\ Len(view) = 4
+           /\ view' \in {v \in AllViews : /\ (v[1] % 4) + 1 = view[2]
+                                          /\ v[IF Mode = "views" THEN 5 ELSE 4] = view[3]
+                                          /\ (v[IF Mode = "views" THEN 4 ELSE 5] % 3) + 1 = view[4]}
 IsView == Len(view) >= 5
 
 (* views *)
